@@ -104,6 +104,13 @@ func (fr *frame) oblige(kind, desc string, pos token.Pos, goal string) {
 	fr.u.addObl(kind, desc, fr.pos(pos), fr.cur, goal)
 }
 
+func (fr *frame) obligeO(kind, desc string, pos token.Pos, goal string) *Obligation {
+	if goal == "true" {
+		return nil
+	}
+	return fr.u.addObl(kind, desc, fr.pos(pos), fr.cur, goal)
+}
+
 func (fr *frame) safetyCheck(kind, desc string, pos token.Pos, goal string) {
 	if goal == "true" {
 		return
@@ -379,16 +386,17 @@ func (fr *frame) enterLoop(li *loopInfo, b *ssa.BasicBlock) {
 	if li.spec != nil {
 		for k, inv := range li.spec.Invariants {
 			env := fr.specEnvAt(b, li.entry, li.phiEntry)
-			goal, err := env.boolExpr(inv.E)
+			goal, extra, err := env.goal(inv.E)
 			if err != nil {
 				fr.u.bindingError(fmt.Sprintf("loop %d invariant %d: %v", li.ord, k+1, err))
 				continue
 			}
-			fr.u.addObl(fmt.Sprintf("loop%d.inv.init", li.ord), "invariant holds on loop entry: "+inv.Src, fr.pos(firstPos(b)), li.entryCur, goal)
+			o := fr.u.addObl(fmt.Sprintf("loop%d.inv.init", li.ord), "invariant holds on loop entry: "+inv.Src, fr.pos(firstPos(b)), li.entryCur, goal)
+			o.Extra = extra
 		}
 	}
 	// havoc
-	li.hav = &havocProv{tag: fr.tag(fmt.Sprintf("L%d", li.ord)), cache: map[string]string{}, prev: li.entry}
+	li.hav = &havocProv{tag: fr.tag(fmt.Sprintf("L%d", li.ord)), cache: map[string]string{}, prev: li.entry, startN: u.nfresh}
 	ws := fr.st.ws
 	fr.st = &state{over: map[string]string{}, base: li.hav, ws: ws}
 	for _, phi := range phis {
@@ -412,6 +420,7 @@ func (fr *frame) enterLoop(li *loopInfo, b *ssa.BasicBlock) {
 				continue
 			}
 			u.assert("(=> " + fr.cur + " " + t + ")")
+			env.recordHyps(inv.E, fr.cur)
 		}
 	} else if fr.top {
 		u.note("loop %d of %s has no invariant (state havoc'd at the header)", li.ord, fr.fn.Name())
@@ -433,7 +442,7 @@ func (fr *frame) finishLoop(li *loopInfo) {
 	// inv.pres on each back edge
 	if li.spec != nil {
 		for k, inv := range li.spec.Invariants {
-			var goals []string
+			var goals, extra []string
 			ok := true
 			for _, be := range li.backs {
 				sub := map[*ssa.Phi]Val{}
@@ -450,12 +459,13 @@ func (fr *frame) finishLoop(li *loopInfo) {
 					}
 				}
 				env := fr.specEnvAt(b, be.st, sub)
-				t, err := env.boolExpr(inv.E)
+				t, ex, err := env.goal(inv.E)
 				if err != nil {
 					fr.u.bindingError(fmt.Sprintf("loop %d invariant %d: %v", li.ord, k+1, err))
 					ok = false
 					break
 				}
+				extra = append(extra, ex...)
 				goals = append(goals, "(=> "+be.cond+" "+t+")")
 			}
 			if ok {
@@ -463,7 +473,8 @@ func (fr *frame) finishLoop(li *loopInfo) {
 				if len(goals) > 1 {
 					g = "(and " + strings.Join(goals, " ") + ")"
 				}
-				u.addObl(fmt.Sprintf("loop%d.inv.pres", li.ord), "invariant preserved by the loop body: "+inv.Src, fr.pos(firstPos(b)), "true", g)
+				o := u.addObl(fmt.Sprintf("loop%d.inv.pres", li.ord), "invariant preserved by the loop body: "+inv.Src, fr.pos(firstPos(b)), "true", g)
+				o.Extra = extra
 			}
 		}
 	}
